@@ -10,7 +10,7 @@ from gen_config import *  # noqa
 PROP_FILES = ["Config/Properties_C18.v"]
 MANIFEST = dict(
     technique="Coq proof (case analysis over policy x cache x hash x server with arbitrary contents, SHA-256 an uninterpreted section variable; induction over fetch histories sharing one cache) on a Gallina port of fetch_remote_config_with_client, tied by an exhaustive run of the policy table through the re-exported function with a scripted HttpClient, sampled histories, and real kills at every hook point of the cache write",
-    text="Theorems C18_integrity, C18_never_caches_mismatch, C18_offline_never_fetches, C18_unreadable_entry_is_a_miss, C18_refresh_never_reads_cache, C18_normal_respects_ttl, C18_sequence_inv, C18_failed_fetch_leaves_cache, C18_crash_with_hash_safe, C18_crash_without_hash hold for every hash function, every content, every clock value and every history (unbounded). The tie to the Rust code: the full product policy(3) x cache state(27: absent, 5 ages x 4 bodies, fresh / stale x 3 unreadable entries: torn inside a multi-byte character, invalid UTF-8 bytes, a directory at the entry path) x extends_sha256(11, incl. empty / prefix / upper-case / over-long / last-char-differs pins) x server(4) under the simulated and the wall clock, sampled histories of 2-4 fetches, and a child process killed at each named point of the cache write followed by a second run.",
+    text="Theorems C18_integrity, C18_never_caches_mismatch, C18_offline_never_fetches, C18_unreadable_entry_is_a_miss, C18_refresh_never_reads_cache, C18_normal_respects_ttl, C18_sequence_inv, C18_failed_fetch_leaves_cache, C18_crash_with_hash_safe, C18_crash_without_hash, and for several URLs sharing one cache directory keyed on the whole URL text C18_other_urls_untouched, C18_url_answer_depends_on_own_entry_only, C18_offline_unfetched_url_misses, C18_url_histories_independent hold for every hash function, every content, every clock value and every history (unbounded). The tie to the Rust code: the full product policy(3) x cache state(27: absent, 5 ages x 4 bodies, fresh / stale x 3 unreadable entries: torn inside a multi-byte character, invalid UTF-8 bytes, a directory at the entry path) x extends_sha256(11, incl. empty / prefix / upper-case / over-long / last-char-differs pins) x server(4) under the simulated and the wall clock, sampled histories of 2-4 fetches, sampled histories over 2-4 URLs that differ only in query string / fragment / letter case (scripted client and the real HTTP leg), and a child process killed at each named point of the cache write followed by a second run.",
     note="Trusted: Coq kernel, extraction, harness sgv-config (scripted client, clock virtualisation: a cache file written under the simulated clock is re-stamped with the simulated time), sha2, the file system's rename atomicity. ReqwestClient::get is exercised against a local plain-HTTP stub (status classes, request count per run, through config show / config validate / check); TLS, redirects that do carry a Location and real time-outs are not.",
     ref="5 (C18)")
 
@@ -307,6 +307,156 @@ def run_sequences(ctx, env, st, n):
         ctx.sample({"level": "sequence", "initial_cache": c, "steps": steps, "impl_and_model": io})
 
 
+# ------------------------------------------------------------------ histories over SEVERAL URLs sharing one cache directory
+
+UBASE = "https://example.invalid/sgv/remote.toml"
+URL_FAMILIES = {
+    # members of a family differ ONLY in the named part; every one is a different URL and has an entry of its own
+    "query": [UBASE + "?ref=v1", UBASE + "?ref=v2", UBASE, UBASE + "?", UBASE + "?ref=v1&x=1", UBASE + "?token=abc", UBASE + "?token=abd"],
+    "fragment": [UBASE + "#a", UBASE + "#b", UBASE, UBASE + "#"],
+    "path-case": [UBASE, "https://example.invalid/sgv/Remote.toml", "https://example.invalid/SGV/remote.toml", "https://example.invalid/sgv/remote.TOML"],
+    "query+fragment+case": [UBASE + "?ref=v1#a", UBASE + "?ref=v1#b", UBASE + "?ref=V1#a", "https://example.invalid/sgv/Remote.toml?ref=v1", UBASE + "?ref=v2#a"],
+    "other": [UBASE, UBASE + "/", "http://example.invalid/sgv/remote.toml", "https://example.invalid:443/sgv/remote.toml", "https://example.invalid/sgv/remote%2Etoml",
+              "https://example.invalid/sgv/./remote.toml"],
+}
+
+
+def ubody(i, k):
+    """Body number k of URL number i of a case: every (URL, version) has a body of its own."""
+    return "[content]\nmax_lines = %d\n" % (1000 * (i + 1) + k)
+
+
+def gen_url_history(rng, family=None):
+    family = family or rng.choice(sorted(URL_FAMILIES))
+    urls = rng.sample(URL_FAMILIES[family], rng.randint(2, min(4, len(URL_FAMILIES[family]))))
+    now = N0
+    steps = []
+    ver = [0] * len(urls)
+    fetched = set()
+    for _ in range(rng.randint(3, 8)):
+        now += rng.choice([0, 1, 10, 10, 600, 1800, 3599, 3600, 4000])
+        # mostly: a URL whose sibling was fetched already, under offline / normal (the policies that may read a cache)
+        unf = [i for i in range(len(urls)) if i not in fetched]
+        i = rng.choice(unf) if (unf and fetched and rng.random() < 0.6) else rng.randrange(len(urls))
+        policy = rng.choice(["normal", "normal", "offline", "offline", "refresh"]) if fetched else rng.choice(["normal", "normal", "normal", "refresh", "offline"])
+        if rng.random() < 0.15:
+            ver[i] += 1                                  # the server's body of this URL changes
+        r = rng.random()
+        server = ("B", ubody(i, ver[i])) if r < 0.85 else ("F", rng.choice([1, 2]))
+        r = rng.random()
+        if r < 0.7:
+            expected = None
+        elif r < 0.85:
+            expected = sha256_hex(ubody(i, ver[i]))
+        else:
+            j = rng.randrange(len(urls))
+            expected = sha256_hex(ubody(j, ver[j]))      # the pin of a sibling's body
+        steps.append((i, policy, now, expected, server))
+        if policy != "offline" and server[0] == "B" and (expected is None or expected == sha256_hex(server[1])):
+            fetched.add(i)
+    return family, urls, steps
+
+
+def url_history_lines(urls, steps):
+    bodies = sorted({s[4][1] for s in steps if s[4][0] == "B"})
+    ht = ";".join("%s=%s" % (enc(b), enc(sha256_hex(b))) for b in bodies) or "!"
+    sf = ["%d;%s;%d;%s;%s" % (i, p, now, enc_opt(e), server_field(srv)) for (i, p, now, e, srv) in steps]
+    us = ";".join(enc(u) for u in urls)
+    return "useq\t%s\t%s\t%s" % (us, ht, "\t".join(sf)), "useq\t%s\t%s" % (us, "\t".join(sf))
+
+
+def oracle_url_history(urls, steps, io):
+    """The C18 statement read per URL, independent of the model: offline on a URL that has no entry of its own is a
+    cache miss without a request; the content that takes effect is a body the server served FOR THE CONFIGURED URL;
+    a URL without an entry is fetched under the normal policy; the client is asked for the configured URL only; the
+    directory ends up with one entry per URL that was fetched successfully."""
+    fails = []
+    outs_s, final = [x.strip() for x in io.split("|")]
+    outs = [x.strip() for x in outs_s.split(";")]
+    entry = {}
+    served = {}
+    for k, ((i, policy, now, expected, server), o) in enumerate(zip(steps, outs)):
+        f = o.rsplit(" ", 2)
+        oc, nreq, asked = parse_outcome(f[0]), int(f[1]), f[2]
+        where = "step %d (%s, %s)" % (k + 1, policy, urls[i])
+        if server[0] == "B" and nreq > 0:
+            served.setdefault(i, set()).add(server[1])
+        if asked != "!" and any(a != str(i) for a in asked.split("+")):
+            fails.append(where + ": the client was asked for another URL than the configured one (%s)" % asked)
+        if policy == "offline":
+            if nreq != 0:
+                fails.append(where + ": offline policy contacted the network")
+            if i not in entry and oc[0] != "MISS":
+                fails.append(where + ": offline policy on a URL that was never fetched did not fail with the cache-miss error: %s" % (oc,))
+        if policy == "refresh" and nreq != 1:
+            fails.append(where + ": refresh policy must fetch exactly once")
+        if policy == "normal" and i not in entry and nreq != 1:
+            fails.append(where + ": normal policy on a URL that has no cache entry did not contact the server")
+        if oc[0] == "CONTENT":
+            if oc[1] not in served.get(i, set()):
+                fails.append(where + ": the content that took effect (%r) is not a body the server served for this URL" % oc[1])
+            if expected is not None and sha256_hex(oc[1]) != expected:
+                fails.append(where + ": integrity: content with another SHA-256 than extends_sha256 accepted")
+            if nreq == 1:
+                entry[i] = (now, oc[1])
+    want = sorted(cache_field(e) for e in entry.values())
+    got = sorted(x.strip() for x in final.split("&")) if final != "!" else []
+    if got != want:
+        fails.append("cache directory after the history: %r, required one entry per successfully fetched URL: %r" % (got, want))
+    return fails
+
+
+def run_url_sequences(ctx, env, st, n):
+    rng = ctx.rng
+    # corpus first: the two-URL shape (fetch A; B offline; B normal within the hour; A offline) for every family
+    cases = []
+    for fam in sorted(URL_FAMILIES):
+        a, b = URL_FAMILIES[fam][0], URL_FAMILIES[fam][1]
+        cases.append((fam + ":corpus", [a, b], [(0, "normal", N0, None, ("B", ubody(0, 0))), (1, "offline", N0 + 10, None, ("B", ubody(1, 0))),
+                                              (1, "normal", N0 + 20, None, ("B", ubody(1, 0))), (0, "offline", N0 + 30, None, ("F", 1)),
+                                              (1, "offline", N0 + 9000, None, ("F", 1))]))
+    for _ in range(n):
+        cases.append(gen_url_history(rng))
+    ml, il = zip(*[url_history_lines(u, s) for _, u, s in cases])
+    iouts, ierrs = run_sharded(env["impl"], list(il), args=["run"])
+    mouts, merrs = run_sharded(env["model"], list(ml))
+    if merrs:
+        raise CheckBroken("model driver failed: %s" % merrs[:1])
+    for (fam, urls, steps), io, mo, m in zip(cases, iouts, mouts, ml):
+        tag = "url-history:" + fam.split(":")[0]
+        st["hist"][tag] = st["hist"].get(tag, 0) + 1
+        st["evals"] += 1
+        desc = {"level": "url-history", "family": fam, "urls": urls, "steps": steps, "model_line": m, "impl": io}
+        if io in ("PANIC", "<NOANSWER>") or "|" not in io:
+            st["fails"].append(dict(desc, what="panic / no answer"))
+            continue
+        # impl vs model: answers without the asked-URL column, entries as a sorted list
+        def canon(line, strip_asked):
+            a, b = [x.strip() for x in line.split("|")]
+            outs = [x.strip() for x in a.split(";")]
+            if strip_asked:
+                outs = [o.rsplit(" ", 1)[0] for o in outs]
+            return outs, (sorted(x.strip() for x in b.split("&")) if b != "!" else [])
+        if canon(io, True) != canon(mo, False):
+            st["mism"].append(dict(desc, model=mo))
+        else:
+            st["agree"] += 1
+        for f in oracle_url_history(urls, steps, io):
+            st["fails"].append(dict(desc, what=f))
+        offline_unfetched = False
+        seen = set()
+        for (i, policy, now, e, srv) in steps:
+            if policy == "offline" and i not in seen and seen:
+                offline_unfetched = True
+            if policy != "offline" and srv[0] == "B":
+                seen.add(i)
+        if offline_unfetched:
+            st["hist"]["url-history:offline-on-unfetched-sibling"] = st["hist"].get("url-history:offline-on-unfetched-sibling", 0) + 1
+        st["nontrivial"].add(m)
+    for (fam, urls, steps), io in list(zip(cases, iouts))[5:7]:
+        ctx.sample({"level": "url-history", "family": fam, "urls": urls, "steps": steps, "impl_and_model": io})
+
+
 # ------------------------------------------------------------------ real kills inside the cache write
 
 def fetch_root(root):
@@ -491,13 +641,15 @@ class Stub:
         import threading
         stub = self
         self.status, self.body, self.requests = 200, GOOD.encode(), 0
+        self.routes, self.paths = {}, []          # request target (path?query) -> body; targets seen, in order
 
         class Handler(http.server.BaseHTTPRequestHandler):
             protocol_version = "HTTP/1.1"
 
             def do_GET(self):
                 stub.requests += 1
-                body = stub.body if stub.status == 200 else b""
+                stub.paths.append(self.path)
+                body = stub.routes.get(self.path, stub.body) if stub.status == 200 else b""
                 self.send_response(stub.status)
                 if stub.status == 200:
                     self.send_header("Content-Type", "text/plain; charset=utf-8")
@@ -686,6 +838,94 @@ def run_real_server(ctx, env, st):
     ctx.cov["http_statuses_exercised"] = STATUSES
 
 
+def run_real_server_urls(ctx, env, st):
+    """Two extends URLs that differ only in the query string / the fragment / the letter case of the path, against the
+    local HTTP server, through the real binary: A is fetched (normal policy); B, never fetched, is then used offline
+    (must be a cache miss, no request) and under the normal policy within the hour (must ask the server for B and
+    apply B's body, not the copy cached for A); A and B are then both served offline from their own entries."""
+    try:
+        stub = Stub()
+    except OSError as e:
+        raise CheckBroken("cannot open a local HTTP server: %s" % e)
+    fams = [("query", "/base.toml?ref=v1", "/base.toml?ref=v2"), ("query", "/base.toml", "/base.toml?x=1"), ("query", "/base.toml?token=abc", "/base.toml"),
+            ("path-case", "/base.toml", "/Base.toml"), ("path-case", "/cfg/base.toml", "/CFG/base.toml"),
+            ("fragment", "/base.toml#a", "/base.toml#b"), ("fragment", "/base.toml", "/base.toml#top"), ("query+fragment", "/base.toml?ref=v1#a", "/base.toml?ref=v2#a")]
+    limit = {GOOD: 100, OLD: 90}
+    plan = [("A", "normal"), ("B", "offline"), ("B", "normal"), ("A", "offline"), ("B", "offline")]
+    try:
+        for k, (fam, ta, tb) in enumerate(fams):
+            cmd = ["show", "show", "check", "show", "validate", "show", "show", "show"][k]
+            with Sandbox("sgv-c18-urls-") as sb:
+                base = "http://127.0.0.1:%d" % stub.port
+                url = {"A": base + ta, "B": base + tb}
+                wire_t = {"A": ta.split("#")[0], "B": tb.split("#")[0]}          # what reaches the server: no fragment
+                same = wire_t["A"] == wire_t["B"]                                   # fragment only: one resource
+                body = {"A": GOOD, "B": GOOD if same else OLD}
+                stub.status = 200
+                stub.routes = {wire_t["A"]: body["A"].encode(), wire_t["B"]: body["B"].encode()}
+                fetched = set()
+                steps, answers = [], []
+                for j, (which, policy) in enumerate(plan):
+                    sb.write(".sloc-guard.toml", 'extends = "%s"\n' % url[which])
+                    n0, p0 = stub.requests, len(stub.paths)
+                    ents0 = sorted(fs_state(e) for e in cache_entries(sb.proj))
+                    rc, out, err = sb.run(env["cli"], ["--color", "never", "--extends-policy", policy] + HTTP_CMDS[cmd],
+                                          env={"NO_PROXY": "127.0.0.1", "no_proxy": "127.0.0.1", "RAYON_NUM_THREADS": "1"})
+                    st["spawns"] += 1
+                    st["evals"] += 1
+                    tag = "http-urls:%s:%s" % (fam, cmd)
+                    st["hist"][tag] = st["hist"].get(tag, 0) + 1
+                    nreq, seen = stub.requests - n0, stub.paths[p0:]
+                    ml = None
+                    if rc == 0 and cmd == "show":
+                        try:
+                            ml = json.loads(out)["content"]["max_lines"]
+                        except (ValueError, KeyError):
+                            ml = "?"
+                    ents = sorted(fs_state(e) for e in cache_entries(sb.proj))
+                    desc = {"level": "http-urls", "family": fam, "url_A": url["A"], "url_B": url["B"], "body_A": body["A"], "body_B": body["B"], "plan": plan, "step": j,
+                            "configured": url[which], "command": " ".join(["--extends-policy", policy] + HTTP_CMDS[cmd]),
+                            "impl": {"rc": rc, "max_lines": ml, "requests": nreq, "request_targets": seen, "cache_entries_after": ents, "stderr": err[-300:]}}
+                    if policy == "offline":
+                        if nreq != 0:
+                            st["fails"].append(dict(desc, what="offline policy contacted the server"))
+                        if which not in fetched and (rc != 2 or "cache miss" not in err):
+                            st["fails"].append(dict(desc, what="offline policy on a URL that was never fetched (only its sibling %s was) did not fail with the cache-miss error: exit %d" % (url["A"], rc)))
+                        if which in fetched and (rc != 0 or (cmd == "show" and ml != limit[body[which]])):
+                            st["fails"].append(dict(desc, what="offline policy did not apply the cached body of the configured URL"))
+                        if ents != ents0:
+                            st["fails"].append(dict(desc, what="offline policy changed the cache"))
+                    else:
+                        if which not in fetched and nreq != 1:
+                            st["fails"].append(dict(desc, what="normal policy on a URL without a cache entry of its own sent %d requests (1 required)" % nreq))
+                        if any(t != wire_t[which] for t in seen):
+                            st["fails"].append(dict(desc, what="the server was asked for %r, the configured URL is %r" % (seen, wire_t[which])))
+                        if rc != 0 or (cmd == "show" and ml != limit[body[which]]):
+                            st["fails"].append(dict(desc, what="the effective configuration is not the body of the configured URL (max_lines %r, required %r; exit %d)" % (ml, limit[body[which]], rc)))
+                        if rc == 0 and nreq == 1:
+                            fetched.add(which)
+                    answers.append((rc, ml, nreq))
+                    steps.append((0 if which == "A" else 1, policy, N0 + j, None, ("B", body[which])))
+                if len(cache_entries(sb.proj)) != 2:
+                    st["fails"].append(dict(desc, what="two URLs were fetched, the cache holds %d entries" % len(cache_entries(sb.proj))))
+                # the model's history over two URLs
+                m, _ = url_history_lines([url["A"], url["B"]], steps)
+                mo, _, _ = run_lines(env["model"], [m])
+                ok = True
+                for (rc, ml, nreq), o in zip(answers, [x.strip() for x in mo[0].split("|")[0].split(";")]):
+                    oc = parse_outcome(o.rsplit(" ", 1)[0])
+                    if rc != (0 if oc[0] == "CONTENT" else 2) or nreq != int(o.rsplit(" ", 1)[1]) or (oc[0] == "CONTENT" and cmd == "show" and ml != limit.get(oc[1])):
+                        ok = False
+                if ok:
+                    st["agree"] += len(plan)
+                else:
+                    st["mism"].append({"level": "http-urls", "family": fam, "url_A": url["A"], "url_B": url["B"], "model_line": m, "model": mo[0], "impl": answers})
+                st["nontrivial"].add("http-urls:" + repr((fam, ta, tb)))
+    finally:
+        stub.close()
+    ctx.sample({"level": "http-urls", "families": fams, "plan": plan})
+
+
 # ------------------------------------------------------------------ vm_compute cross-check
 
 def xcheck(ctx, env, k):
@@ -742,9 +982,11 @@ def run(ctx):
     run_table(ctx, env, st, real=False)
     run_table(ctx, env, st, real=True)
     run_sequences(ctx, env, st, 1500 if ctx.tier == "quick" else 20000)
+    run_url_sequences(ctx, env, st, 1200 if ctx.tier == "quick" else 15000)
     run_crashes(ctx, env, st)
     run_cli_pins(ctx, env, st)
     run_real_server(ctx, env, st)
+    run_real_server_urls(ctx, env, st)
     ctx.cov["extends_sha256_values_exercised"] = [{"label": l, "value": v} for l, v in pins()]
     xcheck(ctx, env, 40 if ctx.tier == "quick" else 300)
     ctx.cov["evaluations"] = st["evals"]
@@ -760,7 +1002,10 @@ def run(ctx):
                        "the correct digest in upper case, the digest plus one character, 64 characters differing in the last one - the model compares the pin by equality, so all but the "
                        "exact digest are mismatches) x server(correct body, altered body, connection error, time-out) = 3564 rows under the "
                        "simulated clock (SGV_NOW) plus the rows away from the TTL boundary under the wall clock (cache file aged with set_modified); seeded histories of 2-4 fetches "
-                       "sharing one cache file with an advancing clock and the same pin values; the pin through the CLI (leaf.toml with extends_sha256, cached remote, --extends-policy offline, 10 string pin values and 5 pins that are not strings); the production client (reqwest) through the real binary against a local HTTP "
+                       "sharing one cache file with an advancing clock and the same pin values; seeded histories of 3-8 fetches over 2-4 URLs of one family (URLs differing only in the query string, "
+                       "the fragment, the letter case of the path, combinations, and trailing slash / scheme / port / percent-encoding) sharing one initially empty cache directory, each URL with bodies of its own "
+                       "(oracle per URL: offline on a URL that was never fetched is a miss without a request, the content is a body served for the configured URL, the client is asked for the "
+                       "configured URL, one entry per fetched URL) and the same two-URL shape for 8 URL pairs through the real binary against the local HTTP server; the pin through the CLI (leaf.toml with extends_sha256, cached remote, --extends-policy offline, 10 string pin values and 5 pins that are not strings); the production client (reqwest) through the real binary against a local HTTP "
                        "server on 127.0.0.1 answering each of 200, 204, 300, 301 (no Location), 304, 400, 404, 500, 503, followed by a healthy run, plus offline / refresh / pinned scenarios, unreadable entries under every policy and the commands config show / config validate / check "
                        "(requests counted by the server: offline 0, refresh exactly 1); every named hook point of the cache write killed in a child process (SGV_CRASH_AT) for 16 scenarios, each "
                        "followed by three second runs with the server unreachable. Observables: returned content or error kind, requests seen by the scripted client, cache bytes "
